@@ -462,43 +462,66 @@ def run():
         elif len(ck.coverage["samples"]) < 10 and i % 211 == 0:
             ck.sample({"prql": src, "sql": a["ok"], "sqlite_value": got})
 
-    # ------------------------------------------------------------ 3b. float literals: the text translate_literal emits (Rust {:?}) vs Model/FloatFmt.v
-    #      emit_float_rust on the DECIMAL value (m, e) the lexer model gives the spelling; compared on the class in_class
-    #      (<= 15 significant digits, normal range) and on the overflow class (compile error since 1ae3488); outside: counted only
+    # ------------------------------------------------------------ 3b. float literals: the text translate_literal emits (Rust {:?}) vs the models, on the
+    #      DECIMAL value (m, e) the lexer model gives the spelling.  Model/FloatRyu.v emit_float_ryu (decimal -> nearest binary64 ->
+    #      shortest digits -> layout) must give prqlc's text for EVERY spelling, 16-17 significant digits and subnormals included,
+    #      and its binary64 must be the one the lexer produced (bit for bit); Model/FloatFmt.v emit_float_rust (layout of the
+    #      spelling's own digits) must agree on its class in_class; overflow = the compile error (since 1ae3488)
     if model_lit is not None:
+        import struct
         fl = []
         for i, (src, pv, kind) in enumerate(lits):
             m = model_lit[i]
             if kind.startswith("number") and m != "None" and isinstance(m, tuple) and m[0] == "Some" and m[1][0] == 2 and m[1][3] == []:
                 tag, payload, (sg, mag), rest = m[1]
-                fl.append((src, int(s_of(payload)), bool(sg), mag))
+                if mag > 5000:
+                    continue                    # 1e999999: decided by digit count in FloatFmt.overflows; not expanded by the rounding model
+                iv = impl_vals[i]
+                bits = struct.unpack(">Q", struct.pack(">d", iv[1]))[0] if iv and iv[0] == "Float" and iv[1] is not None else None
+                fl.append((src, int(s_of(payload)), bool(sg), mag, bits))
         fcomp = harness("compile", [{"src": "from t | select {v = %s}" % f[0], "target": "sql.generic"} for f in fl])
+        fneg = harness("compile", [{"src": "from t | select {v = -%s}" % f[0], "target": "sql.generic"} for f in fl])     # folded negation: Literal::Float(-f)
         try:
-            B = 60
-            fmodel = [x for v in coq_eval(HEADER.replace("Model.Literal.", "Model.Literal Model.FloatFmt."),
-                                          ["[%s]" % "; ".join("emit_float_view %d %s %d" % (m_, "true" if sg_ else "false", mag_) for (_, m_, sg_, mag_) in fl[i:i + B])
+            B = 12
+            fmodel = [x for v in coq_eval(HEADER.replace("Model.Literal.", "Model.Literal Model.FloatFmt Model.FloatRyu."),
+                                          ["[%s]" % "; ".join("(emit_float_view %d %s %d, emit_float_ryu_view %d %s %d)" % ((m_, "true" if sg_ else "false", mag_) * 2) for (_, m_, sg_, mag_, _) in fl[i:i + B])
                                            for i in range(0, len(fl), B)]) for x in v]
         except RuntimeError as ex:
             fmodel = None
             ck.coverage["model_eval_error_float"] = str(ex)[-600:]
+
+        def num_of(ans):
+            sql = ans.get("ok", "")
+            return sql[len("SELECT "):-len(" AS v FROM t")] if sql.startswith("SELECT ") and sql.endswith(" AS v FROM t") else None
         if fmodel is not None:
-            for (src, m_, sg_, mag_), a, (cls, txt) in zip(fl, fcomp, fmodel):
-                sql = a.get("ok", "")
-                got = sql[len("SELECT "):-len(" AS v FROM t")] if sql.startswith("SELECT ") and sql.endswith(" AS v FROM t") else None
+            for (src, m_, sg_, mag_, bits), a, an, ((cls, txt), ryu) in zip(fl, fcomp, fneg, fmodel):
+                got = num_of(a)
                 ck.count("float-text", src)
-                if txt == "None":
+                if ryu == "None":
                     ck.stat("float-text", "overflow")
                     reasons = [e_.get("reason") or "" for e_ in a.get("err", [])]
                     if "ok" in a or not any("float literal is out of range" in r_ for r_ in reasons):
                         ck.violation("float literal %s: the model says it overflows binary64 and is rejected, prqlc answers %r" % (src, a.get("ok") or reasons), {"kind": "float-text", "src": src, "model": None, "impl": a})
+                    if txt != "None":
+                        ck.violation("float literal %s: FloatFmt.overflows and FloatRyu.round64 disagree about overflow" % src, {"kind": "float-models", "src": src})
                     continue
-                mt = s_of(txt[1])
-                if cls:
+                mbits, rt = ryu[1][0], s_of(ryu[1][1])
+                ck.stat("float-text", "digits%d" % min(len(str(m_).rstrip("0")), 18))
+                if bits is not None and mbits != bits:
+                    ck.violation("float literal %s: the lexer produced the binary64 %016x, the rounding model says %016x" % (src, bits, mbits), {"kind": "float-round", "src": src, "impl_bits": "%016x" % bits, "model_bits": "%016x" % mbits})
+                if got != rt:
+                    ck.violation("float literal %s: prqlc emits %r, the model (nearest binary64, shortest digits, {:?} layout) says %r" % (src, got, rt), {"kind": "float-text", "src": src, "model": rt, "impl": got})
+                ck.count("float-text", "-" + src)
+                if num_of(an) != "-" + rt:
+                    ck.violation("float literal -%s: prqlc emits %r, the model says %r" % (src, num_of(an), "-" + rt), {"kind": "float-text", "src": "-" + src, "model": "-" + rt, "impl": an})
+                if txt == "None":
+                    ck.violation("float literal %s: FloatFmt.overflows and FloatRyu.round64 disagree about overflow" % src, {"kind": "float-models", "src": src})
+                elif cls:
                     ck.stat("float-text", "in-class")
-                    if got != mt:
-                        ck.violation("float literal %s: prqlc emits %r, the model of Rust's {:?} layout says %r" % (src, got, mt), {"kind": "float-text", "src": src, "model": mt, "impl": got})
+                    if s_of(txt[1]) != rt:
+                        ck.violation("float literal %s is in_class (<= 15 digits) but the layout of its own digits %r is not the shortest-digits text %r" % (src, s_of(txt[1]), rt), {"kind": "float-class", "src": src})
                 else:
-                    ck.stat("float-text", "outside-class-same" if got == mt else "outside-class-differs")
+                    ck.stat("float-text", "outside-class")
 
     # ------------------------------------------------------------ 4. per-dialect token structure of the compiled statement
     tprogs = [p for p in progs if p[3]["skeleton"] == "select" and p[1] == "sql.sqlite" and p[3]["kind"].startswith("string")]
